@@ -517,7 +517,7 @@ class Channel(BaseChannel):
         self.remove_consumer_tag()
         if self._inbound:
             self._inbound.clear()
-        self.exceptions.append(AMQPChannelError(
+        self.exceptions.insert(0, AMQPChannelError(
             'Channel %d was closed by remote server: %s' %
             (
                 self._channel_id,
